@@ -754,6 +754,12 @@ func stripIface(v ssa.Value) ssa.Value {
 // path, the canonical conditions and the concatenation of what is written to sinks along it.  ok is false when the
 // function has no such write.
 func writeSequences(p *Prog, fn *ssa.Function, node ssa.Value) ([]vcase, bool) {
+	return writeSequencesFrom(p, fn, node, nil)
+}
+
+// writeSequencesFrom: with a loop header given, the sequences of one iteration of that loop (from the header's
+// in-loop successor back to the header); otherwise from the function entry up to the first loop.
+func writeSequencesFrom(p *Prog, fn *ssa.Function, node ssa.Value, header *ssa.BasicBlock) ([]vcase, bool) {
 	ev := newCaseEval(p, node)
 	var out []vcase
 	any := false
@@ -789,11 +795,32 @@ func writeSequences(p *Prog, fn *ssa.Function, node ssa.Value) ([]vcase, bool) {
 			emit(fr)
 			return
 		}
+		if header != nil && !header.Dominates(b) {
+			emit(fr) // left the loop
+			return
+		}
 		for _, in := range b.Instrs {
 			if vs := sinkWrite(p, in, 0); vs != nil {
 				any = true
 				for _, v := range vs {
 					fr.parts = append(append([][]vcase{}, fr.parts...), ev.cases(v, 0))
+				}
+				continue
+			}
+			// a module printer that is handed a sink (builder / writer) and a node: "print(node)"
+			if c, ok := in.(*ssa.Call); ok && c.Common().StaticCallee() != nil && p.InModule(c.Common().StaticCallee()) && c.Common().StaticCallee() != fn {
+				hasSink, nodeTerm := false, ""
+				for _, a := range c.Common().Args {
+					if isSinkType(a.Type()) {
+						hasSink = true
+					}
+					if isNodePtr(a.Type()) {
+						nodeTerm = ev.termOf(a)
+					}
+				}
+				if hasSink && nodeTerm != "" && callsItself(c.Common().StaticCallee()) {
+					any = true
+					fr.parts = append(append([][]vcase{}, fr.parts...), single("print("+nodeTerm+")"))
 				}
 			}
 		}
@@ -821,8 +848,28 @@ func writeSequences(p *Prog, fn *ssa.Function, node ssa.Value) ([]vcase, bool) {
 			}
 		}
 	}
+	if header != nil {
+		for _, s := range header.Succs {
+			// the in-loop successor: the one from which the header can be reached again
+			if canReach(s, header) {
+				walk(s, frame{conds: map[string]bool{}}, 0)
+			}
+		}
+		return out, any
+	}
 	walk(fn.Blocks[0], frame{conds: map[string]bool{}}, 0)
 	return out, any
 }
 
 func constantString(s string) constant.Value { return constant.MakeString(s) }
+
+// isSinkType: *strings.Builder, *bytes.Buffer, *bufio.Writer or io.Writer.
+func isSinkType(t types.Type) bool {
+	if isNamed(t, "io", "Writer") {
+		return true
+	}
+	if pt, ok := t.Underlying().(*types.Pointer); ok {
+		return isNamed(pt.Elem(), "strings", "Builder") || isNamed(pt.Elem(), "bytes", "Buffer") || isNamed(pt.Elem(), "bufio", "Writer")
+	}
+	return false
+}
